@@ -428,3 +428,15 @@ enum UnionState {
     Accumulator(CpcSketch),
     BitMatrix(Vec<u64>),
 }
+
+#[cfg(feature = "verif-hooks")]
+impl CpcUnion {
+    /// Verification hook: (current lg_k, bit matrix if the union is in bit-matrix state,
+    /// accumulator sketch otherwise).
+    pub fn verif_state(&self) -> (u8, Option<Vec<u64>>, Option<CpcSketch>) {
+        match &self.state {
+            UnionState::Accumulator(sketch) => (self.lg_k, None, Some(sketch.clone())),
+            UnionState::BitMatrix(matrix) => (self.lg_k, Some(matrix.clone()), None),
+        }
+    }
+}
